@@ -8,7 +8,7 @@ register(Prop(
           Run('broker-qos', quick=15000, thorough=60000, seeds_thorough=4)],
     oracle=by_core({'conc': eq_lines, 'broker': _pb.broker_oracle}),
     nontrivial=by_core({'conc': lambda op, out: out != 'reset', 'broker': _pb.broker_nontrivial}),
-    spec_total=False, unspecified=_pb.overlap_episode,
+    spec_total=False,
     classes={'empty_level': _pb.has_empty_level},
     assumptions=[
         "concurrent runs are unserialised real executions (2-8 publishers, payloads up to 7000 bytes through a 16 KiB outgoing ring so packets wrap mid-packet; `conc srv`: 2-8 goroutines calling Server.Publish at the same time); they sample interleavings, the theorem quantifies over all of them",
